@@ -68,7 +68,7 @@ type bsWorld struct {
 	nodes   []*bsNode
 	serving map[int]int           // per block id: sources currently working on it
 	gates   map[int]chan struct{} // per block id: closed when a second source is asked (simultaneous scenario)
-	fail    map[int][]string // per block id: outcomes of successive RequestBlock calls before it is served
+	fail    map[int][]string      // per block id: outcomes of successive RequestBlock calls before it is served
 	hold    map[int]chan struct{}
 	intr    chan interface{}
 	bmDone  chan error
